@@ -5,6 +5,7 @@ subsequent `execute` returns the direct rows (Lemmas/Exec.lean).
 -/
 import DafRel.Spec.Processor
 import DafRel.Lemmas.Exec
+import DafRel.Lemmas.Metadata
 
 namespace DafRel
 
@@ -12,7 +13,7 @@ theorem PlainIter.engine {e : Engine} : (t : Rel) → t.PlainIter e → t.engine
   | .leaf .., h => h
   | .unary _ t _, h => PlainIter.engine t h
   | .binary _ l _ _, h => PlainIter.engine l h.1
-  | .mat _ _ t, h => PlainIter.engine t h.1
+  | .mat _ _ t, h => PlainIter.engine t h
   | .transfer .., h => by cases h
   | .select .., h => by cases h
 
@@ -148,7 +149,7 @@ theorem process_plain_iter (σ : Leaves) (reg : Nat → Option (List Row)) (e : 
     cases fuel with
     | zero => simp [Rel.size] at hf
     | succ n =>
-      obtain ⟨hpt, hnji, hnz⟩ := hp
+      have hpt : Rel.PlainIter e target := hp
       have hkd' : keyDetermined σ target = true := hkd
       cases hc : s.st.payload oid with
       | some it0 =>
@@ -166,10 +167,6 @@ theorem process_plain_iter (σ : Leaves) (reg : Nat → Option (List Row)) (e : 
         obtain ⟨s1, ih, P1⟩ := process_plain_iter σ reg e hek target n (some name) s hpt hio hwf htr hkd' hreg.2 hs hq
           (by simp [Rel.size] at hf; omega)
         simp only [ExceptT.run, StateT.run] at ih
-        unfold processRec
-        simp [bind, ExceptT.bind, ExceptT.mk, ExceptT.bindCont, StateT.bind, get, getThe, MonadStateOf.get,
-          StateT.get, liftM, monadLift, MonadLift.monadLift, ExceptT.lift, ExceptT.run, StateT.run, hnc, pure,
-          ExceptT.pure, StateT.pure, Functor.map, StateT.map, ih, Res.get, hnji, hnz]
         have hattach : ∀ (s2 : ProcState) (it : Iterable), StoreOK σ reg s2.st → s2.sq.payloads = [] →
             s2.nextTemp = s.nextTemp → ItOK it → it.rows σ = .ok (sem σ target) →
             ProcIterOK σ reg (Rel.mat oid name target) s (s2.attach oid (.iter it)) := by
@@ -179,6 +176,7 @@ theorem process_plain_iter (σ : Leaves) (reg : Nat → Option (List Row)) (e : 
           · simp [ProcState.attach, ProcState.payloadOf, Rel.oid, ExecState.payload]
         have hmf : (Rel.mat oid name target).procFlag = true := rfl
         rw [hmf]
+        have hek' : target.engine.kind = .iter := by rw [PlainIter.engine target hpt]; exact hek
         by_cases hfl : target.procFlag = true
         · -- the target's own payload is handed on
           have hsome := P1.cached hfl
@@ -188,20 +186,46 @@ theorem process_plain_iter (σ : Leaves) (reg : Nat → Option (List Row)) (e : 
             obtain ⟨it, hpit, hi, hr⟩ := cached_payload_rows σ reg s1 e P1.store P1.sq target hpt hreg.2 hfl p hpo
             subst hpit
             refine ⟨s1.attach oid (.iter it), ?_, hattach s1 it P1.store P1.sq P1.temp hi hr⟩
-            simp [hfl, bind, ExceptT.bind, ExceptT.mk, ExceptT.bindCont, StateT.bind, get, getThe, MonadStateOf.get,
-              StateT.get, modify, modifyGet, MonadStateOf.modifyGet, StateT.modifyGet, MonadState.modifyGet,
-              liftM, monadLift, MonadLift.monadLift, ExceptT.lift,
+            unfold processRec
+            simp [hfl, hnc, ih, Res.get, bind, ExceptT.bind, ExceptT.mk, ExceptT.bindCont, StateT.bind, get, getThe,
+              MonadStateOf.get, StateT.get, modify, modifyGet, MonadStateOf.modifyGet, StateT.modifyGet,
+              MonadState.modifyGet, liftM, monadLift, MonadLift.monadLift, ExceptT.lift, ExceptT.run, StateT.run,
               pure, ExceptT.pure, StateT.pure, Functor.map, StateT.map,
               payloadThrough_some s1 _ target hpo]
-        · -- the hook evaluates the target
-          obtain ⟨s2, hh, h2, hsq, hnt⟩ := hookMaterialize_iter σ reg target name s1
-            (by rw [PlainIter.engine target hpt]; exact hek) hio hwf htr hkd' hreg.2 P1.store
-          refine ⟨s2.attach oid (.iter (.seq (sem σ target))), ?_,
-            hattach s2 _ h2 (by rw [hsq]; exact P1.sq) (by rw [hnt, P1.temp]) trivial rfl⟩
-          simp [hfl, hh, bind, ExceptT.bind, ExceptT.mk, ExceptT.bindCont, StateT.bind, get, getThe, MonadStateOf.get,
-            StateT.get, modify, modifyGet, MonadStateOf.modifyGet, StateT.modifyGet, MonadState.modifyGet,
-            liftM, monadLift, MonadLift.monadLift, ExceptT.lift,
-            pure, ExceptT.pure, StateT.pure, Functor.map, StateT.map]
+        · by_cases hji : (Rel.mat oid name target).isJoinIdentity = true
+          · -- statically a join identity: the engine's trivial payload, no hook
+            have hsem : sem σ target = [Row.empty] :=
+              joinIdentity_sound σ target hwf htr
+                (by simpa [Rel.isJoinIdentity, Rel.columns, Rel.maxRows, Rel.minRows] using hji)
+            refine ⟨s1.attach oid (.iter (.mapping [] [Row.empty])), ?_,
+              hattach s1 _ P1.store P1.sq P1.temp (by simp [ItOK]) (by rw [hsem]; rfl)⟩
+            unfold processRec
+            simp [hfl, hnc, ih, hji, hek', trivialPayload, Res.get, bind, ExceptT.bind, ExceptT.mk, ExceptT.bindCont,
+              StateT.bind, get, getThe, MonadStateOf.get, StateT.get, modify, modifyGet, MonadStateOf.modifyGet,
+              StateT.modifyGet, MonadState.modifyGet, liftM, monadLift, MonadLift.monadLift, ExceptT.lift,
+              ExceptT.run, StateT.run, pure, ExceptT.pure, StateT.pure, Functor.map, StateT.map]
+          · by_cases hmz : (Rel.mat oid name target).maxRows = some 0
+            · -- statically empty
+              have hsem : sem σ target = [] :=
+                maxRows_zero_sound σ target hwf htr (by simpa [Rel.maxRows] using hmz)
+              refine ⟨s1.attach oid (.iter (.mapping [] [])), ?_,
+                hattach s1 _ P1.store P1.sq P1.temp (by simp [ItOK]) (by rw [hsem]; rfl)⟩
+              unfold processRec
+              simp [hfl, hnc, ih, hji, hmz, hek', trivialPayload, Res.get, bind, ExceptT.bind, ExceptT.mk,
+                ExceptT.bindCont, StateT.bind, get, getThe, MonadStateOf.get, StateT.get, modify, modifyGet,
+                MonadStateOf.modifyGet, StateT.modifyGet, MonadState.modifyGet, liftM, monadLift,
+                MonadLift.monadLift, ExceptT.lift, ExceptT.run, StateT.run, pure, ExceptT.pure, StateT.pure,
+                Functor.map, StateT.map]
+            · -- the hook evaluates the target
+              obtain ⟨s2, hh, h2, hsq, hnt⟩ := hookMaterialize_iter σ reg target name s1 hek' hio hwf htr hkd' hreg.2
+                P1.store
+              refine ⟨s2.attach oid (.iter (.seq (sem σ target))), ?_,
+                hattach s2 _ h2 (by rw [hsq]; exact P1.sq) (by rw [hnt, P1.temp]) trivial rfl⟩
+              unfold processRec
+              simp [hfl, hnc, ih, hji, hmz, hh, Res.get, bind, ExceptT.bind, ExceptT.mk, ExceptT.bindCont, StateT.bind,
+                get, getThe, MonadStateOf.get, StateT.get, modify, modifyGet, MonadStateOf.modifyGet,
+                StateT.modifyGet, MonadState.modifyGet, liftM, monadLift, MonadLift.monadLift, ExceptT.lift,
+                ExceptT.run, StateT.run, pure, ExceptT.pure, StateT.pure, Functor.map, StateT.map]
 
 /-- **Process, then execute**: for a tree inside one iteration engine (leaves, unary operations, chains,
 materializations), `Processor.process` returns the tree itself, and executing it afterwards yields exactly the rows
